@@ -120,7 +120,7 @@ func init() {
 			if tier == "thorough" {
 				return 15 * time.Minute
 			}
-			return 70 * time.Second
+			return 120 * time.Second
 		},
 	})
 }
